@@ -248,3 +248,40 @@ func ReadContent(root []byte, get func([]byte) []byte) (map[string][]byte, int, 
 	err := walk(root, "")
 	return out, n, err
 }
+
+// ReachSet returns the set of node hashes (as strings of raw bytes) reachable from root through get, following
+// stored encodings with the harness' own parser; absent lists reachable-but-absent hashes.
+func ReachSet(root []byte, get func([]byte) []byte) (reach map[string]bool, absent [][]byte, err error) {
+	reach = map[string]bool{}
+	var walk func(key []byte)
+	walk = func(key []byte) {
+		if reach[string(key)] {
+			return
+		}
+		enc := get(key)
+		if enc == nil {
+			absent = append(absent, append([]byte(nil), key...))
+			return
+		}
+		reach[string(key)] = true
+		pn, perr := ParseStored(enc)
+		if perr != nil {
+			err = perr
+			return
+		}
+		switch pn.Type {
+		case 4:
+			for _, c := range pn.Children {
+				if c != nil {
+					walk(c)
+				}
+			}
+		case 8:
+			walk(pn.Child)
+		}
+	}
+	if len(root) > 0 {
+		walk(root)
+	}
+	return
+}
